@@ -382,6 +382,9 @@ func OracleC02(ex *Exec) *Obs {
 				}
 			}
 		}
+		if r.Op == vm.SELFDESTRUCT && r.HadSuicided && r.BalBefore != nil && r.BalBefore.Sign() > 0 {
+			o.class("selfdestruct-again-after-being-paid-again")
+		}
 		if r.Op == vm.SELFDESTRUCT && r.FrameEnded && r.FrameErr == nil {
 			if ex.Case.PTN < params.SelfDestructRefundForkBlock || !r.HadSuicided {
 				refunds.Add(refunds, ex.Refund)
